@@ -59,6 +59,8 @@ def gen_outcomes(rng, rcpts, L, bias):
                     'lat': lat}
             if spec['t'] == 'map' and rng.random() < 0.4:
                 spec['order'] = rng.choice(['reverse', 'domain', 'rotate'])
+            if spec['t'] == 'seq' and rng.random() < 0.4:
+                spec['as'] = 'tuple'
             out.append(spec)
             if nxt and len(nxt) < len(outstanding):
                 partial_rounds += 1
